@@ -838,6 +838,10 @@ variableLoop:
 			// Function call
 			// FunctionName '(' Comma-separated list of expressions ')'
 			part := resolver.parts[len(resolver.parts)-1]
+			if part.isFunctionCall {
+				// f(1)(2) is not f(1, 2)
+				return nil, p.Error("The result of a call cannot be called directly.", nil)
+			}
 			part.isFunctionCall = true
 		argumentLoop:
 			for {
